@@ -127,6 +127,10 @@ fn outcome<T, E: std::fmt::Debug>(r: Result<Result<T, E>, String>) -> (String, O
     }
 }
 
+fn outcome_s<T, E: std::fmt::Debug>(r: Result<Result<T, E>, String>) -> String {
+    outcome(r).0
+}
+
 /// One cache exercise: put, get, contains, remove; records touched paths and whether a read served decoy bytes.
 fn exercise_cache<K: CacheKey + 'static>(sb: &Sandbox, cache: &DiskCache<K>, keys: &[K], ev: &mut Value) {
     let before = sb.listing();
@@ -422,6 +426,23 @@ fn run_program(prog: &Value, em: &Emit, rt: &tokio::runtime::Runtime) {
                 steps.push(json!({"op": "download_archive_index", "outcome": o}));
                 let (o, _) = outcome(guarded(|| rt.block_on(client.get_index_size(&endpoint, &name))));
                 steps.push(json!({"op": "get_index_size", "outcome": o}));
+                // the other places that turn an archive name / hash string into a URL
+                let rd = cascette_protocol::cdn::RangeDownloader::with_config(1, 1 << 20, std::time::Duration::from_secs(3)).expect("range downloader");
+                for with_product in [false, true] {
+                    let mut ep = endpoint.clone();
+                    if with_product {
+                        ep.product_path = Some("wow".into());
+                    }
+                    let r = guarded(|| rt.block_on(rd.download_archive_content(&ep, &name, 0, 4)).map(|v| Some(bytes::Bytes::from(v))).map_err(|e| e.to_string()));
+                    steps.push(json!({"op": "range.download_archive_content", "outcome": outcome_s(r)}));
+                }
+                use cascette_protocol::cdn::streaming::{CdnUrlBuilder, ContentType as SCT};
+                let r = guarded(|| CdnUrlBuilder::hash_directories(&name).map(|_| None::<bytes::Bytes>).map_err(|e| e.to_string()));
+                steps.push(json!({"op": "stream.hash_directories", "outcome": outcome_s(r)}));
+                let r = guarded(|| CdnUrlBuilder::new().build_url("127.0.0.1", "tpr/wow", SCT::Data, &name, false).map(|_| None::<bytes::Bytes>).map_err(|e| e.to_string()));
+                steps.push(json!({"op": "stream.build_url", "outcome": outcome_s(r)}));
+                let r = guarded(|| CdnUrlBuilder::new().build_product_config_url("127.0.0.1", &name, false).map(|_| None::<bytes::Bytes>).map_err(|e| e.to_string()));
+                steps.push(json!({"op": "stream.build_product_config_url", "outcome": outcome_s(r)}));
             }
             ev["objects"] = json!(objects);
             ev["decoy_read"] = json!(false);
